@@ -446,6 +446,16 @@ func c17Complete(w *World, r *Report, mts []*types.Named) {
 				} else if len(w.Origins(v, nil)) > 1 {
 					overridable[f.Name()] = v
 				}
+				if ok && !copied {
+					// the field never falls back to the prototype's value: then it must not fall back
+					// to a built-in constant either (the prototype's configured value would be lost for
+					// rules that override something else)
+					for _, leaf := range leafOrigins(w, v, 0) {
+						if k, isK := leaf.(*ssa.Const); isK && k.Value != nil {
+							ok, m2 = false, "field "+f.Name()+" falls back to the constant "+k.String()+" where the override does not set it, instead of the prototype's value"
+						}
+					}
+				}
 				r.Ob(ri, key, lit.Pos(), ok, m2)
 			}
 			// derived fields: copied unchanged although, in the constructor, they are computed from what an
@@ -552,4 +562,45 @@ func c17Factory(w *World, r *Report) {
 			r.Ob(ri, w.FnName(fn)+"|prototype-or-variant", fn.Pos(), ok, msg)
 		}
 	}
+}
+
+// leafOrigins: Origins extended through the results of static module callees (parameters replaced
+// by the call's arguments), to depth 2.
+func leafOrigins(w *World, v ssa.Value, depth int) []ssa.Value {
+	var out []ssa.Value
+	for _, o := range w.Origins(v, nil) {
+		c, idx := resultOfCall(o)
+		if c == nil {
+			if cc, ok := o.(*ssa.Call); ok {
+				c, idx = cc, 0
+			}
+		}
+		if c != nil && depth < 2 {
+			if callee := c.Common().StaticCallee(); callee != nil && callee.Blocks != nil && w.inModule(callee) && !c.Common().IsInvoke() {
+				descended := false
+				for _, ret := range returnsOf(callee) {
+					if idx >= len(ret.Results) {
+						continue
+					}
+					for _, l := range leafOrigins(w, ret.Results[idx], depth+1) {
+						descended = true
+						if pa, ok := l.(*ssa.Parameter); ok && pa.Parent() == callee {
+							for i, q := range callee.Params {
+								if q == pa && i < len(c.Common().Args) {
+									out = append(out, leafOrigins(w, c.Common().Args[i], depth+1)...)
+								}
+							}
+							continue
+						}
+						out = append(out, l)
+					}
+				}
+				if descended {
+					continue
+				}
+			}
+		}
+		out = append(out, o)
+	}
+	return out
 }
